@@ -180,5 +180,16 @@ func checks() map[string]CheckDef {
 		Outside: []string{"'still converges afterwards' (C06)", "ban bookkeeping and peer admission (C18)", "the experimental engine's message loop around VerifyAndAdvance (sockets, goroutines)", "serving endpoints never return a forbidden header because none is ever stored (INV-H), not checked per endpoint"},
 		Stubs:   []string{"service.Chains replaced by a stub returning an arbitrary outcome per header (each outcome is one C01 allows)", "service.Headers stub supplies the locator", "peer: a real peerpkg.Peer marked connected with a no-op connection; queued messages and Disconnect are observed through in-package helpers", "SyncManager.logSyncState (logging) is a no-op"},
 	})
+	add(CheckDef{
+		ID: "C18", Level: "model_checking",
+		Runs: []HRun{
+			{Pkg: "transports/p2p", Func: "HarnessAdmission",
+				Labels: []string{"C18/admitted-iff-not-banned-and-below-both-limits", "C18/refused-peer-is-disconnected", "C18/refusal-changes-no-counter", "C18/never-above-total-limit", "C18/never-above-per-host-limit",
+					"C18/admission-counts-host-and-group", "C18/counters-return-when-peer-leaves", "C18/ban-lasts-the-configured-duration", "C18/expired-ban-is-dropped-on-admission", "C18/ban-kept-until-expiry-then-dropped"}},
+		},
+		Bounds:  []string{"one add / done / ban step of the server's peer handler from an arbitrary peer state around one host: total peers in {0, 1, MaxPeers-1, MaxPeers, MaxPeers+1}, the host's connection counter and the group counter any value < 2^20, ban entry absent or ending any number of seconds (|delta| in 2..100000) before or after now, ban duration 0/1/2 h, server shutting down or not, peer inbound / outbound / persistent", "the counting argument 'counters return to zero' is this +1/-1 symmetry applied event by event (induction over events: argument)"},
+		Outside: []string{"the connection manager half of the property (outbound target kept, redial after failure): connmgr.connHandler is a select loop over channels and timers, not encodable", "ban boundaries within one second of now (left out so that replays on the real clock are deterministic)", "addrmgr.GroupKey is an uninterpreted function of the address", "per-host limit counts non-persistent peers only (persistent peers are operator-added and deliberately not counted)"},
+		Stubs:   []string{"real server / serverPeer / peer.Peer objects without sockets (in-package constructors)", "time.Now arbitrary non-decreasing; the step is assumed to take at most one second"},
+	})
 	return m
 }
